@@ -8,6 +8,7 @@ From Verif Require Import Base.PyValue Model.Eval Model.Params Proofs.ParamsProo
 From Verif Require Model.PyMini Model.PrimsApi Gen.SrcParams Proofs.SrcParams.
 (* group `attach` (bld-shell3): Connection.__init__ (whole) and Connection.attach, see the end of this file *)
 From Verif Require Model.PrimsAttach Gen.SrcAttach Proofs.SrcAttach.
+From Verif Require Model.PrimsAttach2 Gen.SrcAttach2 Proofs.SrcAttach2.   (* bld-inv2: sources.beancount.attach *)
 Open Scope Z_scope.
 
 (* For every history of parse / execute(parsed) / execute(text) / executemany on one
@@ -233,3 +234,87 @@ Print Assumptions C09_source_attach_refs.
 (* the hypothesis is satisfiable: every opaque callable returns an opaque object *)
 Example C09_source_attach_objects_ok : Proofs.SrcAttach.objects_ok (fun k _ => PRef k).
 Proof. intros a. split; exact I. Qed.
+
+(* ---- group `attach2` (bld-inv2): Gen/SrcAttach2.v, regenerated on every run from the WHOLE of
+   beanquery.sources.beancount.attach (the callee Connection.attach hands the connection to; rules B1-B3 of
+   harness/vf/src_attach2.py: item store / update / extend on a container of the connection as assignments of the
+   attribute, the module-level list TABLES as the constant list of its classes) together with `attach2_tables` (the live
+   TABLES: callable, class, its `name`) and `attach2_written`.  Model: Model/PrimsAttach2.v (register_tables: one item
+   store per class under its own name; raw_set: an existing key is replaced in place, a new one appended) on the
+   encoding of a connection C09_source_connection_init_whole uses.  Hypotheses: urlparse returns an object whose `path`
+   is some value fn; if fn is true loader.load_file(fn) returns the triple, else the keyword arguments are used; options
+   is a dict, errors a list; no table constructor raises. ---- *)
+Module A2 := Verif.Proofs.SrcAttach2.
+Module G2 := Verif.Gen.SrcAttach2.
+Module M2 := Verif.Model.PrimsAttach2.
+
+(* the whole function: tables registered, options updated, errors extended, `attach` untouched, returns None *)
+Theorem C09_source_attach_registers_tables : forall (call_ref : nat -> list pv -> pv) (msg : string -> list pv -> pv)
+    (a tagT : pv) (T : list pv) (tagO : pv) (O E : list pv) (dsn entries errors options : pv) (ku : nat) (b : bool)
+    (en tagP : pv) (P R : list pv),
+  call_ref A2.kUrlparse [dsn] = PRef ku ->
+  A2.not_err (msg "attr:path"%string [PRef ku]) -> pv_truthy (msg "attr:path"%string [PRef ku]) = Ok b ->
+  (if b then call_ref A2.kLoadFile [msg "attr:path"%string [PRef ku]] = PTuple [en; PList R; PTuple [tagP; PList P]]
+   else entries = en /\ errors = PList R /\ options = PTuple [tagP; PList P]) ->
+  A2.constructors_ok call_ref en (PTuple [tagP; PList P]) ->
+  call_method call_ref (M2.prim_attach2 msg (M2.tname_of G2.attach2_tables)) G2.source_attach
+    (A2.conn a tagT T tagO O E) [dsn; entries; errors; options] =
+  Ok (A2.conn a tagT (M2.register_tables G2.attach2_tables (A2.mk_table call_ref en (PTuple [tagP; PList P])) T)
+              tagO (M2.raw_update O P) (E ++ R),
+      PNone).
+Proof. exact A2.source_attach_src. Qed.
+Print Assumptions C09_source_attach_registers_tables.
+
+(* the names: the live TABLES list, in order; pairwise distinct names and classes; entries / postings first, from
+   query_env; the connection attributes written are tables, options, errors *)
+Theorem C09_source_attach_registers_names :
+  map snd G2.attach2_tables =
+  ["entries"; "postings"; "transactions"; "prices"; "balances"; "notes"; "events"; "documents"; "accounts";
+   "commodities"]%string
+  /\ NoDup (map snd G2.attach2_tables)
+  /\ NoDup (map (fun t => fst (fst t)) G2.attach2_tables)
+  /\ map (fun t => snd (fst t)) (firstn 2 G2.attach2_tables) =
+     ["beanquery.query_env.EntriesTable"; "beanquery.query_env.PostingsTable"]%string
+  /\ G2.attach2_written = ["tables"; "options"; "errors"]%string
+  /\ ref_of G2.refs "urllib.parse.urlparse" = Some A2.kUrlparse
+  /\ ref_of G2.refs "beancount.loader.load_file" = Some A2.kLoadFile.
+Proof.
+  exact (conj A2.table_names_eq (conj A2.table_names_nodup (conj A2.table_callables_nodup
+          (conj A2.table_classes_head (conj A2.written_eq A2.refs_ok))))).
+Qed.
+Print Assumptions C09_source_attach_registers_names.
+
+(* on a connection fresh from __init__ (tables = {'': NullTable()}): afterwards EXACTLY the null table and one item per
+   element of TABLES, in list order, each under its own name, each the class called on (entries, options) *)
+Theorem C09_source_attach_registers_once : forall (mk : nat -> pv) (nt : pv),
+  M2.register_tables G2.attach2_tables mk [PTuple [PStr ""; nt]] =
+  PTuple [PStr ""; nt] :: map (fun t => PTuple [PStr (snd t); mk (fst (fst t))]) G2.attach2_tables.
+Proof. exact A2.registers_fresh. Qed.
+Print Assumptions C09_source_attach_registers_once.
+
+(* a second attach replaces the values in place: same keys, same order, still one item per name *)
+Theorem C09_source_attach_registers_again : forall (mk mk' : nat -> pv) (nt : pv),
+  M2.register_tables G2.attach2_tables mk' (M2.register_tables G2.attach2_tables mk [PTuple [PStr ""; nt]]) =
+  M2.register_tables G2.attach2_tables mk' [PTuple [PStr ""; nt]].
+Proof. exact A2.registers_again. Qed.
+Print Assumptions C09_source_attach_registers_again.
+
+(* whatever the tables held before: no key appears that was not there or is not the name of a class of TABLES *)
+Theorem C09_source_attach_registers_nothing_else : forall tabs (mk : nat -> pv) (l : list pv) (x : pv),
+  In x (M2.raw_keys (M2.register_tables tabs mk l)) ->
+  In x (M2.raw_keys l) \/ In x (map (fun t => PStr (snd t)) tabs).
+Proof. exact A2.registers_nothing_else. Qed.
+Print Assumptions C09_source_attach_registers_nothing_else.
+
+(* the hypotheses are satisfiable, and the composition with __init__: a dsn without a path, keyword ledger *)
+Example C09_source_attach_registers_example :
+  let call_ref := fun (k : nat) (args : list pv) => match k with O => PRef 100 | _ => PTuple (PInt (Z.of_nat k) :: args) end in
+  let msg := fun (_ : string) (_ : list pv) => PStr "" in
+  let opts := pdict [(PStr "title", PStr "x")] in
+  call_method call_ref (M2.prim_attach2 msg (M2.tname_of G2.attach2_tables)) G2.source_attach
+    (Model.PrimsAttach.new_connection (PRef 7) (PRef 50)) [PStr "beancount:"; PList [PInt 1]; PList [PInt 9]; opts] =
+  Ok ([("attach"%string, PRef 7);
+       ("tables"%string, pdict ((PStr "", PRef 50) ::
+          map (fun t => (PStr (snd t), PTuple [PInt (Z.of_nat (fst (fst t))); PList [PInt 1]; opts])) G2.attach2_tables));
+       ("options"%string, opts); ("errors"%string, PList [PInt 9])], PNone).
+Proof. vm_compute. reflexivity. Qed.
